@@ -20,9 +20,17 @@ fn real_main() {
         "f32" => f32::run(&args),
         "int8" => int8::run(&args),
         "bq" => bq::run(&args),
+        "noop" => {}
         other => {
             eprintln!("unknown sub-command {:?}", other);
             std::process::exit(3);
         }
+    }
+    if cfg!(miri) {
+        // rayon deliberately leaks the worker state of a pool built with
+        // `use_current_thread` (see common::with_threads); leaving through
+        // `exit` makes Miri skip its end-of-program leak check, which would
+        // otherwise report that allocation of crossbeam-epoch's.
+        std::process::exit(0);
     }
 }
